@@ -257,6 +257,7 @@ def finish_kani_real(ob, r, ctx, rc, out):
 
 _mir = {}
 _mir_lock = threading.Lock()
+_z3_lock = threading.Lock()
 
 
 def mir_dump(ctx):
@@ -297,6 +298,14 @@ class MirOb:
         if 'error' in m:
             r.reason = m['error']; return r
         t0 = time.time()
+        _z3_lock.acquire()   # the z3 Python API is not thread-safe
+        try:
+            return self._run_locked(ctx, r, m, t0)
+        finally:
+            _z3_lock.release()
+
+    def _run_locked(self, ctx, r, m, t0):
+        import mirpaths
         try:
             cfg = mirpaths.Cfg(m['text'], self.fn_re)
         except mirpaths.MirError as e:
